@@ -61,6 +61,50 @@ pub fn policy_tok(p: &DownloadPolicy) -> String {
     )
 }
 
+/// documents with index `RAW_BASE + d` have hand-picked ids that are neighbours in byte order
+/// (no signing key produces such ids): they are imported read-only and populated through hook H6
+pub const RAW_BASE: usize = 100;
+
+const fn raw_id(fill: u8, b30: u8, b31: u8) -> [u8; 32] {
+    let mut x = [fill; 32];
+    x[30] = b30;
+    x[31] = b31;
+    x
+}
+
+/// `P‖07‖FF`, its successor `P‖08‖00`, `P‖08‖80`, `P‖08‖FF`, `P‖09‖00`, and the two greatest ids
+pub const RAW_NS: [[u8; 32]; 7] = [
+    raw_id(0x50, 0x07, 0xFF),
+    raw_id(0x50, 0x08, 0x00),
+    raw_id(0x50, 0x08, 0x80),
+    raw_id(0x50, 0x08, 0xFF),
+    raw_id(0x50, 0x09, 0x00),
+    raw_id(0xFF, 0xFF, 0xFE),
+    raw_id(0xFF, 0xFF, 0xFF),
+];
+
+pub const RAW_AUTHORS: [[u8; 32]; 6] = [
+    raw_id(0x60, 0x07, 0xFF),
+    raw_id(0x60, 0x08, 0x00),
+    raw_id(0x60, 0x08, 0xFF),
+    raw_id(0x00, 0x00, 0x00),
+    raw_id(0xFF, 0xFF, 0xFE),
+    raw_id(0xFF, 0xFF, 0xFF),
+];
+
+/// an entry for arbitrary namespace / author bytes: the identifier of an honest entry is
+/// overwritten in its postcard encoding (the signatures no longer verify; hook H6 does not check)
+pub fn raw_entry(keys: &Keys, ns: &[u8; 32], author: &[u8; 32], key: &[u8], c: Option<usize>, ts: u64) -> iroh_docs::SignedEntry {
+    let honest = make_entry(&keys.namespaces[0], &keys.authors[0], key, c, ts);
+    let mut b = postcard::to_stdvec(&honest).expect("serialize");
+    // 64 + 64 signature bytes, then the identifier as length-prefixed bytes
+    let id_len = 64 + key.len();
+    let off = 128 + if id_len < 128 { 1 } else { 2 };
+    b[off..off + 32].copy_from_slice(ns);
+    b[off + 32..off + 64].copy_from_slice(author);
+    postcard::from_bytes(&b).expect("deserialize raw entry")
+}
+
 #[derive(Clone, Debug, Serialize, Deserialize)]
 pub enum SOp {
     Open { file: bool },
@@ -116,13 +160,21 @@ impl<'a> StoreWorld<'a> {
             keys,
             rs: RealStore::new(file)?,
             rt: rt(),
-            open: vec![false; keys.namespaces.len()],
+            open: vec![false; RAW_BASE + RAW_NS.len()],
             lines: vec![Line::model("tnew 1", "ok")],
             focus,
         })
     }
     fn nsid(&self, n: usize) -> NamespaceId {
-        self.keys.namespaces[n].id()
+        if n >= RAW_BASE {
+            NamespaceId::from(&RAW_NS[(n - RAW_BASE) % RAW_NS.len()])
+        } else {
+            self.keys.namespaces[n].id()
+        }
+    }
+    /// all documents: the real ones and the hand-picked ones
+    pub fn all_docs(&self) -> Vec<usize> {
+        (0..self.keys.namespaces.len()).chain((0..RAW_NS.len()).map(|d| RAW_BASE + d)).collect()
     }
     fn nshex(&self, n: usize) -> String {
         hex(self.nsid(n).as_bytes())
@@ -212,8 +264,13 @@ impl<'a> StoreWorld<'a> {
         match op {
             SOp::Open { .. } => {}
             SOp::Import { n, write } => {
-                let ns = &self.keys.namespaces[*n];
-                let cap = if *write { Capability::Write(ns.clone()) } else { Capability::Read(ns.id()) };
+                let cap = if *n >= RAW_BASE {
+                    Capability::Read(self.nsid(*n))
+                } else if *write {
+                    Capability::Write(self.keys.namespaces[*n].clone())
+                } else {
+                    Capability::Read(self.nsid(*n))
+                };
                 let (kind, raw) = cap.raw();
                 let out = self.rs.store.import_namespace(cap)?;
                 use iroh_docs::store::ImportNamespaceOutcome::*;
@@ -243,6 +300,30 @@ impl<'a> StoreWorld<'a> {
                 self.open[*n] = false;
                 self.lines.push(Line::model(format!("tclose 1 {}", self.nshex(*n)), "ok"));
             }
+            SOp::Put { n, a, key, c, ts } if *n >= RAW_BASE => {
+                let nsb = RAW_NS[(*n - RAW_BASE) % RAW_NS.len()];
+                let aub = RAW_AUTHORS[*a % RAW_AUTHORS.len()];
+                let e = raw_entry(self.keys, &nsb, &aub, key, *c, *ts);
+                // only into documents that exist (as every insert through the API requires)
+                let nsid = self.nsid(*n);
+                let was_open = self.open[*n];
+                match self.rs.store.open_replica(&nsid) {
+                    Ok(r) => {
+                        drop(r);
+                        if !was_open {
+                            self.rs.store.close_replica(nsid);
+                        }
+                    }
+                    Err(_) => return Ok(()),
+                }
+                let res = self.rs.store.verif_put_unvalidated(e.clone())?;
+                let imp = match res {
+                    Some(k) => format!("inserted {k}"),
+                    None => "notinserted".to_string(),
+                };
+                self.lines.push(Line::model(format!("tput 1 {}", stored_tok(&e)), imp));
+            }
+            SOp::LocalInsert { n, .. } | SOp::LocalDelete { n, .. } if *n >= RAW_BASE => {}
             SOp::Put { n, a, key, c, ts } => {
                 let ns = &self.keys.namespaces[*n];
                 let e = make_entry(ns, &self.keys.authors[*a], key, *c, *ts);
@@ -401,7 +482,8 @@ impl<'a> StoreWorld<'a> {
             }
             SOp::Observe { n } => self.observe(*n)?,
             SOp::ObserveAll => {
-                for n in 0..self.keys.namespaces.len() {
+                let docs = if self.focus == "C16" { self.all_docs() } else { (0..self.keys.namespaces.len()).collect() };
+                for n in docs {
                     self.observe(n)?;
                 }
                 self.observe_global()?;
